@@ -75,7 +75,7 @@ def unit_effect_keys(u):
     return keys_path, keys_method
 
 
-def build_extractor_config(flavour, cfg, files, units):
+def build_extractor_config(flavour, cfg, files, units, bare=()):
     fl = FLAVOURS[flavour]
     eff_path = dict(cfg['effects_path'])
     eff_method = dict(cfg['effects_method'])
@@ -108,6 +108,7 @@ def build_extractor_config(flavour, cfg, files, units):
             'loops': u['loops'], 'closures': u['closures'], 'hints': u['hints'],
             'body_open': u['body_open'], 'inherent': u['inherent'], 'drop_body': u['assumed'],
             'str_slices': u['strslice'], 'keep_generics': u['keep_generics'], 'try_conv': u['tryconv'],
+            'bare': u['id'] in bare,
         })
     return {
         'src': os.path.join(REPO, 'src'),
@@ -266,9 +267,9 @@ def assemble(flavour, cfg, files, active_units, ext_out, auto_weak=()):
     return text, meta
 
 
-def run_extractor(flavour, cfg, files, units):
+def run_extractor(flavour, cfg, files, units, bare=()):
     os.makedirs(BUILD, exist_ok=True)
-    ecfg, active = build_extractor_config(flavour, cfg, files, units)
+    ecfg, active = build_extractor_config(flavour, cfg, files, units, bare)
     cpath = os.path.join(BUILD, f'extract_{flavour}.cfg.json')
     opath = os.path.join(BUILD, f'extract_{flavour}.out.json')
     json.dump(ecfg, open(cpath, 'w'), indent=1)
@@ -453,6 +454,24 @@ def suggested_decls(res):
     return out
 
 
+def unit_of_rustc_error(res, meta, gen_name):
+    """the unit (innermost @UNIT region) a rustc compile error points into, if any"""
+    for d in res['diags']:
+        if d.get('level') != 'error' or not d.get('code'):
+            continue
+        for sp in d.get('spans', []):
+            if not sp.get('file_name', '').endswith(gen_name):
+                continue
+            best = None
+            for u in meta['units']:
+                if u['start'] <= sp['line_start'] <= (u['end'] or 10**9):
+                    if best is None or u['start'] >= best['start']:
+                        best = u
+            if best is not None:
+                return best['id']
+    return None
+
+
 def verify_with_auto_weak(flavour, cfg, files, active, ext, rlimit, seed, max_rounds=8):
     """assemble + verus; if Verus rejects the file only because some std item has no
     specification, add the declaration it proposes (no ensures) and retry"""
@@ -471,3 +490,24 @@ def verify_with_auto_weak(flavour, cfg, files, active, ext, rlimit, seed, max_ro
             return text, meta, gen, res, weak
         weak += new
     return text, meta, gen, res, weak
+
+
+def full_run(flavour, cfg, files, units, rlimit=40, seed=0):
+    """extract + verify, retrying (a) with Verus' own suggested weak std specs and (b) with the
+    loop/closure/hint annotations of a unit dropped when the woven text no longer type-checks
+    against the current body of that unit ("bare" mode: only its pre/postconditions remain)"""
+    bare = set()
+    annotated = {u['id'] for u in units if u['closures'] or u['loops'] or u['hints']}
+    for _ in range(5):
+        ext, active = run_extractor(flavour, cfg, files, units, bare=tuple(bare))
+        text, meta, gen, res, weak = verify_with_auto_weak(flavour, cfg, files, active, ext, rlimit, seed)
+        uid = unit_of_rustc_error(res, meta, os.path.basename(gen))
+        if uid is None or uid in bare:
+            break
+        # the error may sit in a nested inner fn: try the unit itself, then its outer unit
+        cand = [uid] + [u for u in annotated if uid.startswith(u + '::')]
+        cand = [c for c in cand if c in annotated and c not in bare]
+        if not cand:
+            break
+        bare.add(cand[0])
+    return ext, active, text, meta, gen, res, weak, sorted(bare)
